@@ -58,7 +58,7 @@ class World:
 
     def leaf(self, kind: str, name: str) -> Obj:
         cls = "BoolExpr" if kind == "b" else "IntExpr"
-        o = Obj(self.cw.mro(cls), leaf=name, kind=kind, name=name, __class__=cls)
+        o = Obj(self.cw.mro(cls), leaf=name, kind=kind, name=name, __class__=cls, op=Tag("Op.VAR"), operands=[])
         o.resolver = self.cw._resolver
         return o
 
@@ -133,6 +133,13 @@ def check_array_dunders(repo: Repo, rep: Report, w: World) -> None:
                 variants_.append(("(array, array)", [B], {"b0": kind, "b1": kind}))
                 variants_.append(("(array, scalar)", [s], {"s": kind}))
                 variants_.append(("(array, literal)", [True if kind == "b" else 2], {}))
+                # operands whose elements are themselves compound expressions of the same family, built with the library's own
+                # operators: A op (B - C), A op (B + C) / A op (B & C), A op (B | C) - a kernel that looks inside its operands shows here
+                C = w.array(kind, "c", shape)
+                for inner in (("__sub__", "__add__") if kind == "i" else ("__and__", "__or__")):
+                    kr, comp = _try(w, lambda: w.cw.method(B, inner)(C))
+                    if kr == "value" and isinstance(comp, Obj):
+                        variants_.append((f"(array, array {inner} array)", [comp], {"b0": kind, "b1": kind, "c0": kind, "c1": kind}))
             for label, args, extra in variants_:
                 try:
                     kindr, res = _try(w, lambda: w.cw.method(A, name)(*args))
@@ -153,7 +160,11 @@ def check_array_dunders(repo: Repo, rep: Report, w: World) -> None:
                                 want = meaning(sv)
                             else:
                                 o = args[0]
-                                ov = val[f"b{i}"] if label == "(array, array)" else (val["s"] if label == "(array, scalar)" else o)
+                                if label.startswith("(array, array __"):
+                                    inner_m = (BOOL_OPS if kind == "b" else {k: v[1] for k, v in INT_OPS.items()})[label.split()[2]]
+                                    ov = inner_m(val[f"b{i}"], val[f"c{i}"])
+                                else:
+                                    ov = val[f"b{i}"] if label == "(array, array)" else (val["s"] if label == "(array, scalar)" else o)
                                 want = meaning(sv, ov)
                             got = w.denote(res.attrs["data"][i], val)
                             if not same(got, want):
